@@ -255,3 +255,67 @@ func H_C13_Workers(nAssets, ns, nStrat, workers, html int) {
 }
 
 var _ = helper.Drain[int]
+
+// H_C13_ProtocolMissing: the asset list names an asset the repository cannot deliver
+// (delisted) between regular ones: every announced asset still gets its writes and
+// its AssetEnd, in order, and the regular assets are all reported.
+func H_C13_ProtocolMissing(nAssets, nStrat, pos int) {
+	repo := asset.NewInMemoryRepository()
+	good := []string{"a0", "a1", "a2"}[:nAssets]
+	for _, name := range good {
+		ss := snapsAt(name, incDays(name, 2))
+		for _, s := range ss {
+			vrt.Assume(s.Close > 0)
+		}
+		_ = repo.Append(name, Src(ss, 0))
+	}
+	var names []string
+	for i, g := range good {
+		if i == pos {
+			names = append(names, "gone")
+		}
+		names = append(names, g)
+	}
+	if pos >= len(good) {
+		names = append(names, "gone")
+	}
+	rec := &recReport{}
+	bt := backtest.NewBacktest(repo, rec)
+	strategies := make([]strategy.Strategy, nStrat)
+	for j := range strategies {
+		strategies[j] = &stubStrategy{name: vrt.Name("s", j), acts: symActions(vrt.Name("w", j), 2)}
+	}
+	bt.Strategies = strategies
+	bt.Names = names
+	bt.LastDays = 20000
+	vrt.Assert("run_ok", bt.Run() == nil)
+	ev := rec.events
+	vrt.Assert("begin_first", len(ev) >= 2 && ev[0].kind == "begin")
+	vrt.Assert("end_last", len(ev) >= 2 && ev[len(ev)-1].kind == "end")
+	reported := map[string]bool{}
+	i := 1
+	for i < len(ev)-1 {
+		vrt.AssertAt("assetbegin", i, ev[i].kind == "assetbegin")
+		if ev[i].kind != "assetbegin" {
+			break
+		}
+		name := ev[i].assetN
+		reported[name] = true
+		ok := i+1+nStrat < len(ev)-1+1
+		vrt.AssertAt("announced_asset_is_completed", i, ok)
+		if !ok {
+			break
+		}
+		for j := 0; j < nStrat; j++ {
+			w := ev[i+1+j]
+			vrt.AssertAt("write_follows", i*10+j, w.kind == "write" && w.assetN == name)
+		}
+		e := ev[i+1+nStrat]
+		vrt.AssertAt("assetend_follows", i, e.kind == "assetend" && e.assetN == name)
+		i += 2 + nStrat
+	}
+	for _, g := range good {
+		vrt.Assert("asset_reported_"+g, reported[g])
+	}
+	vrt.Reach("end")
+}
